@@ -50,6 +50,14 @@ var xsNames = [xsN]string{
 	"canonical", "valid,first-byte!=0",
 }
 
+var xsMalformedKind [xsN]string
+
+func init() {
+	for i, n := range xsNames {
+		xsMalformedKind[i] = "malformed-accepted:" + n
+	}
+}
+
 func xorShape(v []byte) int {
 	switch {
 	case len(v) < 4:
@@ -67,13 +75,43 @@ func xorShape(v []byte) int {
 	return xsCanonical
 }
 
+// refXorDecode is the reference XOR-*-ADDRESS decoder (RFC 5389 §15.2): byte 0
+// reserved (ignored), byte 1 family (0x01 IPv4 -> 4 address bytes, 0x02 IPv6
+// -> 16), X-Port = port ^ most significant 16 bits of the magic cookie,
+// X-Address = address ^ (magic cookie || transaction id). The value must be
+// exactly 8 or 20 bytes. It allocates nothing; wire.DecodeXorAddr (the
+// harness codec) is checked to agree with it in TestC11XorAddrs.
+func refXorDecode(v []byte, tx [12]byte, ip *[16]byte) (ipLen, port int, ok bool) {
+	if len(v) < 4 {
+		return 0, 0, false
+	}
+	switch {
+	case v[1] == 0x01 && len(v) == 8:
+		ipLen = 4
+	case v[1] == 0x02 && len(v) == 20:
+		ipLen = 16
+	default:
+		return 0, 0, false
+	}
+	port = int(v[2])<<8 | int(v[3])
+	port ^= 0x2112
+	key := [16]byte{0x21, 0x12, 0xA4, 0x42}
+	copy(key[4:], tx[:])
+	for i := range ipLen {
+		ip[i] = v[4+i] ^ key[i]
+	}
+
+	return ipLen, port, true
+}
+
 type xorChecker struct {
-	r    *rep.Report
-	eval int64
+	r     *rep.Report
+	eval  int64
 	curT  int
 	curV  []byte
 	curTx [12]byte
 	cls   [2][xsN][2]int64
+	g     gate
 	// one message per attribute type and value length, value rewritten in place
 	msgs [2][65]*stun.Message
 	vals [2][65][]byte
@@ -83,7 +121,7 @@ var xorTypes = [2]uint16{wire.AttrXORPeerAddress, wire.AttrXORRelayedAddress}
 var xorNames = [2]string{"xor-peer-address", "xor-relayed-address"}
 
 func newXorChecker(r *rep.Report) *xorChecker {
-	x := &xorChecker{r: r}
+	x := &xorChecker{r: r, g: gate{}}
 	for t := range 2 {
 		for n := range 65 {
 			m := stun.New()
@@ -113,6 +151,14 @@ func (x *xorChecker) flush() {
 // raw decodes raw value v (len <= 64) as attribute type t under transaction id tx.
 func (x *xorChecker) raw(t int, v []byte, tx [12]byte) {
 	x.eval++
+	if x.eval&0x3FF == 0 { // cross-check the two independent references on a 1/1024 subsequence
+		var ip [16]byte
+		n, p, ok := refXorDecode(v, tx, &ip)
+		w, wok := wire.DecodeXorAddr(v, tx)
+		if ok != wok || (ok && (!w.IP.Equal(ip[:n]) || w.Port != p)) {
+			panic(fmt.Sprintf("harness bug: refXorDecode and wire.DecodeXorAddr disagree on %x", v))
+		}
+	}
 	x.curT, x.curV, x.curTx = t, v, tx
 	n := len(v)
 	m := x.msgs[t][n]
@@ -133,23 +179,45 @@ func (x *xorChecker) raw(t int, v []byte, tx [12]byte) {
 		err = a.GetFrom(m)
 		ip, port = a.IP, a.Port
 	}
-	ref, ok := wire.DecodeXorAddr(v, tx)
+	var refIP [16]byte
+	refLen, refPort, ok := refXorDecode(v, tx, &refIP)
+	ref := struct {
+		IP   net.IP
+		Port int
+	}{refIP[:refLen], refPort}
 	shape := xorShape(v)
 	x.cls[t][shape][b2i(err != nil)]++
+	if x.cls[t][shape][b2i(err != nil)] == 1 && t == 0 {
+		x.r.Sample(map[string]any{
+			"case": xorCase{xorNames[t], hex.EncodeToString(v), hex.EncodeToString(tx[:])}, "reference": xsNames[shape],
+			"decoder_error": fmt.Sprint(err), "returned": canonAddr(ip, port),
+		})
+	}
 
-	var kind, detail string
+	var kind string
 	switch {
 	case !ok && err == nil:
-		kind = "malformed-accepted:" + xsNames[shape]
-		detail = fmt.Sprintf("decoder returned %s for a raw value the RFC layout does not allow", canonAddr(ip, port))
+		kind = xsMalformedKind[shape]
 	case ok && err == nil && (!ip.Equal(ref.IP) || port != ref.Port):
 		kind = "different-value"
-		detail = fmt.Sprintf("decoder returned %s, the bytes denote %s", canonAddr(ip, port), canonAddr(ref.IP, ref.Port))
 	case ok && err != nil && shape == xsCanonical:
 		kind = "canonical-rejected"
-		detail = fmt.Sprintf("decoder failed (%v) for the canonical encoding of %s", err, canonAddr(ref.IP, ref.Port))
 	default:
 		return
+	}
+	if x.g.full(xorNames[t] + ":raw:" + kind) {
+		x.r.Violate(rep.Violation{Signature: xorNames[t] + ":raw:" + kind})
+
+		return
+	}
+	var detail string
+	switch kind {
+	case "different-value":
+		detail = fmt.Sprintf("decoder returned %s, the bytes denote %s", canonAddr(ip, port), canonAddr(ref.IP, ref.Port))
+	case "canonical-rejected":
+		detail = fmt.Sprintf("decoder failed (%v) for the canonical encoding of %s", err, canonAddr(ref.IP, ref.Port))
+	default:
+		detail = fmt.Sprintf("decoder returned %s for a raw value the RFC layout does not allow", canonAddr(ip, port))
 	}
 	c := xorCase{xorNames[t], hex.EncodeToString(v), hex.EncodeToString(tx[:])}
 	x.r.Violate(rep.Violation{
@@ -178,7 +246,7 @@ func template(dst *[64]byte, v0, fam byte, port int, ip net.IP, tx [12]byte, fil
 //	(b) GetFrom on raw values [first byte, family, xport, xaddr..., filler][:L] compared with the harness' XOR decoder:
 //	    S1 all 256 family bytes x 16 boundary ports x first byte {00,01,80,ff} x 8 IP patterns x L 0..64 x 2 fillers x 3 tx;
 //	    S2 families {1,2} x all 65536 ports x 8 IP patterns x L 0..64;
-//	    S3 (thorough) all 256 family bytes x all 65536 ports x 8 IP patterns x L 0..64.
+//	    S3 (thorough) all 256 family bytes x all 65536 ports x L 0..64 x IP patterns (8 for families 1 and 2, {10.1.0.1, fd00::1} for the 254 unknown ones).
 func TestC11XorAddrs(t *testing.T) {
 	r := rep.New("C11")
 	defer r.Write()
@@ -272,9 +340,15 @@ func TestC11XorAddrs(t *testing.T) {
 		if r.OverBudget("xor raw all ports") {
 			return false
 		}
-		for _, ip := range ips {
+		for ipi, ip := range ips {
 			template(&tpl, 0, 0, port, ip, tx, 0x5A)
 			for _, fam := range fams {
+				// A decoder cannot reach the address bytes of an unknown
+				// family through any RFC-defined path; two address patterns
+				// (one 4-byte, one 16-byte template) are kept for those.
+				if fam != 1 && fam != 2 && ipi != 2 && ipi != 6 {
+					continue
+				}
 				tpl[1] = byte(fam) //nolint:gosec
 				for n := 0; n <= 64; n++ {
 					x.raw(0, tpl[:n], tx)
@@ -285,8 +359,5 @@ func TestC11XorAddrs(t *testing.T) {
 
 		return true
 	})
-	if shard == 0 {
-		r.Sample(map[string]any{"part": "xoraddr", "example": "XOR-PEER-ADDRESS 00 01 2b 84 2b 13 a4 43 tx=0 -> 10.1.0.1:2710"})
-	}
 	r.Bound = 64
 }
